@@ -1607,6 +1607,49 @@ async fn emit_event(
     let _ = event_log.append(&event);
 }
 
+/// Verification export (feature `verif`): feed provider response chunks through the real SSE pipe
+/// (UTF-8 carry-over, decoder, frame mapper, seq offsetting) the way `stream_openresponses_request`
+/// reads a body: chunks are pushed until the terminal marker is seen, then the pipe is flushed if
+/// it never was. Returns the emitted frames, the seq after them and whether `[DONE]` was seen.
+#[cfg(feature = "verif")]
+pub(crate) async fn verif_openresponses_pipe_frames(
+    session_id: &str,
+    seq_start: u64,
+    chunks: &[Vec<u8>],
+    compat_missing_item_ids: bool,
+    event_log: &EventLog,
+) -> (Vec<Event>, u64, bool) {
+    let buffer = Arc::new(Mutex::new(Vec::new()));
+    let (sender, _receiver) = broadcast::channel(16);
+    let mut seq = seq_start;
+    let sink = EventSink {
+        sender: &sender,
+        buffer: &buffer,
+        event_log,
+    };
+    let validation = if compat_missing_item_ids {
+        ValidationOptions::compat_missing_item_ids()
+    } else {
+        ValidationOptions::strict()
+    };
+    let mut saw_done = false;
+    {
+        let mut pipe = OpenResponsesSsePipe::new(session_id, &mut seq, sink, None, validation);
+        let mut utf8_buf: Vec<u8> = Vec::new();
+        for chunk in chunks {
+            if saw_done {
+                break;
+            }
+            saw_done = pipe.push_bytes(&mut utf8_buf, chunk).await;
+        }
+        if !saw_done {
+            let _ = pipe.finish().await;
+        }
+    }
+    let frames = buffer.lock().await.clone();
+    (frames, seq, saw_done)
+}
+
 /// Verification export (feature `verif`): compile the context for a run exactly as `run_session`
 /// does and, when `append` is set, log the selection decision and the compiled frame the same way.
 #[cfg(feature = "verif")]
